@@ -810,7 +810,11 @@ func (c *Cluster) Inject1(e Event) error {
 			return fmt.Errorf("arm: n%d is down", e.N)
 		}
 		c.B.Arms--
-		c.Armed[e.N] = &ArmSpec{Skip: e.A / 2, Phase: e.A % 2}
+		if c.Cfg.FileStore {
+			c.Armed[e.N] = &ArmSpec{Skip: e.A, Phase: ArmFs}
+		} else {
+			c.Armed[e.N] = &ArmSpec{Skip: e.A / 2, Phase: e.A % 2}
+		}
 	case "restart":
 		n := c.Nodes[e.N]
 		if n.Alive {
@@ -1187,13 +1191,16 @@ func (c *Cluster) enabledAll1() []Event {
 			ev = append(ev, Event{K: "crash", N: i})
 		}
 	}
-	if c.Cfg.StoreHook && c.B.Arms > 0 {
+	if (c.Cfg.StoreHook || c.Cfg.FileStore) && c.B.Arms > 0 {
 		for i, n := range c.Nodes {
 			if n.Alive && c.Armed[i] == nil {
 				depth := c.Cfg.ArmDepth
 				if depth == 0 {
 					depth = 2
 				}
+				// in-memory storages: before/after each of the next `depth` storage
+				// calls; real storages: before each of the next 2*depth mutating
+				// file-system calls
 				for a := 0; a < 2*depth; a++ {
 					ev = append(ev, Event{K: "arm", N: i, A: a})
 				}
